@@ -133,19 +133,31 @@ def whileBuffered (cl : Nat) (wd : List Rune → Nat) (body : List RStmt) : Nat 
       | some (st', true) => some st'
       | some (st', false) => whileBuffered cl wd body fuel st'
 
-/-- Split a statement list at the first `endWhile`. -/
-def splitEnd : List RStmt → List RStmt → Option (List RStmt × List RStmt)
-  | [], _ => none
-  | .endWhile :: rest, acc => some (acc.reverse, rest)
-  | s :: rest, acc => splitEnd rest (s :: acc)
+/-- Split a statement list at the first occurrence of `x`: (statements before, statements after). -/
+def splitAtStmt (x : RStmt) : List RStmt → Option (List RStmt × List RStmt)
+  | [] => none
+  | s :: rest => if s = x then some ([], rest) else (splitAtStmt x rest).map fun p => (s :: p.1, p.2)
 
-/-- The statements of `print(r)` in front of the loop; returns the statements after `for … {`. -/
-def prePhase (r : Rune) : List RStmt → PR → Option (PR × List RStmt)
-  | [], _ => none
+/-- The three parts of the body of `print`: the statements in front of `for p.r.Buffered() > 0 {`, the
+    body of the loop, the statements after `}` (purely syntactic). -/
+def splitWhile (body : List RStmt) : Option (List RStmt × List RStmt × List RStmt) :=
+  match splitAtStmt .whileBuffered body with
+  | none => none
+  | some (pre, rest) =>
+    match splitAtStmt .endWhile rest with
+    | none => none
+    | some (loop, post) => some (pre, loop, post)
+
+def preOf (body : List RStmt) : List RStmt := ((splitWhile body).getD ([], [], [])).1
+def loopOf (body : List RStmt) : List RStmt := ((splitWhile body).getD ([], [], [])).2.1
+def postOf (body : List RStmt) : List RStmt := ((splitWhile body).getD ([], [], [])).2.2
+
+/-- The statements of `print(r)` in front of the loop. -/
+def prePhase (r : Rune) : List RStmt → PR → Option PR
+  | [], st => some st
   | .newBuilder :: rest, st => prePhase r rest { st with bldr := [] }
   | .writeFirst :: rest, st => prePhase r rest { st with bldr := st.bldr ++ [r] }
   | .declLocals :: rest, st => prePhase r rest { st with grapheme := st.bldr, restNonEmpty := false, w := 0 }
-  | .whileBuffered :: rest, st => some (st, rest)
   | _ :: _, _ => none
 
 /-- The statements after the loop: the `Print` emitted (grapheme, width) and the reader afterwards. -/
@@ -159,15 +171,14 @@ def postPhase (sw : List Rune → Nat) : List RStmt → PR → Option (List Rune
     afterwards; none = not interpretable. -/
 def interpPrint (cl : Nat) (wd sw : List Rune → Nat) (fuel : Nat) (r : Rune) (body : List RStmt) (rd : Rd) :
     Option (List Rune × Nat × Rd) :=
-  match prePhase r body { b := ⟨rd, none⟩ } with
-  | none => none
-  | some (st1, rest) =>
-    match splitEnd rest [] with
+  if (splitWhile body).isNone then none
+  else
+    match prePhase r (preOf body) { b := ⟨rd, none⟩ } with
     | none => none
-    | some (loop, post) =>
-      match whileBuffered cl wd loop fuel st1 with
+    | some st1 =>
+      match whileBuffered cl wd (loopOf body) fuel st1 with
       | none => none
-      | some st2 => postPhase sw post st2
+      | some st2 => postPhase sw (postOf body) st2
 
 /-! ### the run loop over the interpreted bodies
 
